@@ -43,7 +43,7 @@ REQUIRED = {
 
 
 def run(ctx):
-    for fn in (r1_shortcut, r2_flag_table, r3_symmetry, r4_regex_facts, r6_verdict_sources, r7_regex_call_shape, r8_wildcard_bounds, r9_quote_removal):
+    for fn in (r1_shortcut, r2_flag_table, r3_symmetry, r4_regex_facts, r6_verdict_sources, r7_regex_call_shape, r8_wildcard_bounds, r9_quote_removal, r10_comparison_does_not_write_state):
         ctx.rep.rule(fn, ctx)
 
 
@@ -250,6 +250,79 @@ def r9_quote_removal(ctx):
                'one leading and one trailing character are dropped only when both are the same quote character' if ok_shape and same else (why if ok_shape else 'the shortened text is not a[1:-1]'), anchor=NORM)
         rep.ob('C05.R9', ctx.loc(h, rn.ast), ctx.src(rn.ast) + ' | only if it helps', helps and needed,
                'quotes are removed only when the texts do not match with them and do match without them' if helps and needed else 'quote removal is not conditioned on making the texts match', anchor=NORM)
+
+
+def r10_comparison_does_not_write_state(ctx):
+    """the verdict is a function of (got, want, flags): code in checker.py may change flags only on a private copy of the state it was given.
+    Every subscript store whose base derives from a `runstate` parameter must go through a producer of an independent object."""
+    rep = ctx.rep
+    mod = ctx.prog.module('xdoctest.checker')
+    n = 0
+    for func in [f_ for f_ in ctx.prog.funcs.values() if f_.module is mod]:
+        params = {a.arg for a in func.node.args.args}
+        if 'runstate' not in params:
+            continue
+        g = ctx.cfg(func)
+        rd = ctx.rd(func)
+        for nd in g.nodes:
+            if nd.kind != 'stmt' or nd.dup or not isinstance(nd.ast, (ast.Assign, ast.AugAssign)):
+                continue
+            tg = nd.ast.targets if isinstance(nd.ast, ast.Assign) else [nd.ast.target]
+            for t in tg:
+                if not (isinstance(t, ast.Subscript) and isinstance(t.value, ast.Name)):
+                    continue
+                base = t.value.id
+                verdicts = []
+                for d in rd.at(nd, base):
+                    if d.kind == 'param':
+                        if base == 'runstate':
+                            verdicts.append(('shared', 'the parameter itself'))
+                        continue
+                    v = d.value
+                    if not isinstance(v, ast.AST) or not any(isinstance(x, ast.Name) and x.id == 'runstate' for x in ast.walk(v)):
+                        continue
+                    if isinstance(v, ast.Call) and ast.unparse(v.func) in ('copy.deepcopy', 'deepcopy', 'dict'):
+                        verdicts.append(('fresh', ast.unparse(v.func)))
+                    elif isinstance(v, ast.Call) and isinstance(v.func, ast.Attribute) and is_name(v.func.value, 'runstate'):
+                        m = ctx.prog.find_method(ctx.cls('xdoctest.directive.RuntimeState'), v.func.attr)
+                        if m is None:
+                            raise AnalysisError('C05.R10: %s is not a method of RuntimeState' % v.func.attr)
+                        rets = [r for r in ast.walk(m.node) if isinstance(r, ast.Return) and r.value is not None]
+                        txts = [ast.unparse(r.value) for r in rets]
+                        recv = m.node.args.args[0].arg
+                        if any(tx in ('copy.copy(%s)' % recv, recv) or tx.startswith('copy.copy(') for tx in txts):
+                            verdicts.append(('shared', 'RuntimeState.%s returns a shallow copy / the object itself, which shares its state dictionaries' % v.func.attr))
+                        elif all(isinstance(r.value, ast.Name) for r in rets) and rets:
+                            # a local built inside the method: fresh if it starts as a dict copy / dict display
+                            rdm = ctx.rd(m)
+                            gm = ctx.cfg(m)
+                            fresh = True
+                            for r in rets:
+                                rn = [x for x in gm.nodes if x.kind == 'stmt' and x.ast is r]
+                                for dd in (rdm.at(rn[0], r.value.id) if rn else []):
+                                    vv = dd.value
+                                    if not (isinstance(vv, ast.Dict) or (isinstance(vv, ast.Call) and (ast.unparse(vv.func) in ('dict', 'copy.deepcopy', 'OrderedDict', 'collections.OrderedDict') or (isinstance(vv.func, ast.Attribute) and vv.func.attr == 'copy' and not is_name(vv.func.value, 'copy'))))):
+                                        fresh = False
+                            verdicts.append(('fresh' if fresh else 'unknown', 'RuntimeState.%s' % v.func.attr))
+                        elif all(tx.startswith('copy.deepcopy(') for tx in txts) and rets:
+                            verdicts.append(('fresh', 'deep copy'))
+                        else:
+                            verdicts.append(('unknown', 'RuntimeState.%s' % v.func.attr))
+                    elif isinstance(v, ast.Name) and v.id == 'runstate':
+                        verdicts.append(('shared', 'alias of the parameter'))
+                    else:
+                        verdicts.append(('unknown', ast.unparse(v)))
+                if not verdicts:
+                    continue
+                n += 1
+                if any(k == 'unknown' for k, _ in verdicts) and not any(k == 'shared' for k, _ in verdicts):
+                    raise AnalysisError('C05.R10: cannot tell whether `%s` in %s is independent of the run state it derives from (%s)' % (base, func.qualname, verdicts))
+                shared = [w for k, w in verdicts if k == 'shared']
+                rep.ob('C05.R10', ctx.loc(func, nd.ast), ctx.src(nd.ast), not shared,
+                       'written object is a private copy (%s)' % ', '.join(w for _, w in verdicts) if not shared else
+                       'a flag is switched on an object that shares its state with the caller\'s run state (%s): after this call the caller compares under different flags '
+                       '-- the verdict is no longer a function of (got, want, flags)' % shared[0], anchor=func.qualname)
+    rep.floor('C05.R10', 'flag writes in checker.py on state-derived objects', n, 2)
 
 
 def r7_regex_call_shape(ctx):
@@ -706,6 +779,7 @@ from ..selftest import fire, silent      # noqa: E402
 CK = 'xdoctest/checker.py'
 US = 'xdoctest/utils/util_str.py'
 VARIANTS = [
+    fire('diff-switches-flags-on-shared-state', 'C05.R10', (CK, "        runstate_ = runstate.to_dict()\n\n        # Don't normalize whitespaces in report for better visibility\n", "        runstate_ = runstate\n\n        # Don't normalize whitespaces in report for better visibility\n")),
     fire('mixed-quotes-removed', 'C05.R9', (CK, "                for q in ['\"', \"'\"]:\n                    if a.startswith(q) and a.endswith(q):\n                        if _check_match(a[1:-1], b, runstate):\n                            return a[1:-1]\n", "                quotes = ('\"', \"'\")\n                if a.startswith(quotes) and a.endswith(quotes):\n                    if _check_match(a[1:-1], b, runstate):\n                        return a[1:-1]\n")),
     fire('K2-trailing-ws-spaces-only', 'C05.R4', (CK, 'TRAILING_WS = re.compile(r"[ \\t]*$", re.UNICODE | re.MULTILINE)', 'TRAILING_WS = re.compile(r"[ ]*$", re.UNICODE | re.MULTILINE)')),
     fire('trailing-ws-not-multiline', 'C05.R4', (CK, 'TRAILING_WS = re.compile(r"[ \\t]*$", re.UNICODE | re.MULTILINE)', 'TRAILING_WS = re.compile(r"[ \\t]*$", re.UNICODE)')),
